@@ -624,6 +624,9 @@ fn order_strategy(t: Tier) -> BoxedStrategy<Scenario> {
             max_values: 6,
             w_try: 1,
             fork: 2,
+            // order is indifferent to known finding D7 itself (a second stream on a move-out queue
+            // still delivers in order), so the API may be used here (round-7 seed C02-9)
+            mpmc_uni_fork: true,
             ..TrafficParams::default()
         },
             t,
@@ -853,7 +856,9 @@ fn c12_oracle(sc: &Scenario, ex: &Execution, info: &mut CaseInfo) -> Vec<Finding
 
 fn wakeup_strategy(t: Tier) -> BoxedStrategy<Scenario> {
     gen::traffic(
-        gen::qcfg(BOTH, FutMode::Never, prop_oneof![3 => Just(1u8), 3 => Just(2u8), 2 => Just(4u8), 1 => Just(3u8)].boxed(), gen::wait_any()),
+        // futures queues too: the blocking recv() of the futures receivers waits through FutWait
+        // (round-7 seed C08-10); their producers use the direct try_send here
+        gen::qcfg(BOTH, FutMode::Mixed, prop_oneof![3 => Just(1u8), 3 => Just(2u8), 2 => Just(4u8), 1 => Just(3u8)].boxed(), gen::wait_any()),
         scaled(
     TrafficParams {
             max_values: 5,
@@ -1243,7 +1248,7 @@ fn freeze_strategy(_t: Tier) -> BoxedStrategy<Scenario> {
     prop_oneof![
         2 => gen::traffic(
             gen::qcfg(BOTH, FutMode::Never, gen::cap_small(), gen::wait_no_notify()),
-            TrafficParams { max_values: 4, max_producers: 2, max_consumers: 2, w_try: 6, w_send: 2, w_clone_rx: 2, w_clone_tx: 2, leave: 2, fork: 3, ..TrafficParams::default() },
+            TrafficParams { max_values: 4, max_producers: 2, max_consumers: 2, w_try: 6, w_send: 2, w_clone_rx: 2, w_clone_tx: 2, w_convert: 2, w_try_iter: 3, leave: 2, fork: 3, ..TrafficParams::default() },
             300,
             probe_opts(),
         ),
